@@ -310,6 +310,18 @@ func ruleR7Binary(c *Ctx, prop string) {
 			}
 		}
 		if len(calls) == 0 {
+			// no direct call: the row by table (Apply walked on two abstract operands, the driver call observed)
+			if known, tbad, k, d := c.binaryRowTable(oi); known {
+				n++
+				if tbad == "" {
+					tbad = c.checkBinaryKernel(name, k)
+				}
+				if d != nil {
+					driver = d
+				}
+				c.decide(tbad == "", "R7", key, site, name+" = driver(inputs[0], inputs[1], "+fname(k)+", multidirectional) with the ONNX kernel (by table: however Apply reaches the driver)", tbad)
+				continue
+			}
 			c.undecided("R7", key, site, "Apply does not delegate to the shared binary-operation driver: unrecognised factoring")
 			continue
 		}
@@ -374,6 +386,69 @@ func (c *Ctx) checkBinaryCall(name string, apply *ssa.Function, call *ssa.Call) 
 	if bad != "" {
 		return bad, kernel
 	}
+	return c.checkBinaryKernel(name, kernel), kernel
+}
+
+// binaryRowTable walks an operator's Apply on two abstract operands and observes the call of the shared driver
+// (an exported function of package ops taking two tensors, a kernel and a broadcast mode): the operands in order,
+// the multidirectional mode, exactly one call, its result returned as it is.
+func (c *Ctx) binaryRowTable(oi *opInfo) (known bool, bad string, kernel, driver *ssa.Function) {
+	st := c.libInit()
+	apply := oi.methods["Apply"]
+	if apply == nil || len(st.failed) > 0 {
+		return false, "", nil, nil
+	}
+	cov := newCover(apply)
+	cov.pkgs = map[string]bool{pkgOpset13: true}
+	heap := st.heap.clone()
+	A, B := pval{k: pAbs, i: 9101, s: "tensor"}, pval{k: pAbs, i: 9102, s: "tensor"}
+	out := pval{k: pAbs, i: 9111, s: "tensor"}
+	p := &pinterp{c: c, budget: 100000, objects: true, cover: cov, globals: st.globals}
+	nCalls := 0
+	var got []pval
+	var outList pval
+	p.intercept = func(fn *ssa.Function, call *ssa.Call, callee *ssa.Function, args []pval, h *pheap) ([]pval, bool) {
+		if fnPkgPath(callee) != pkgOps || callee.Parent() != nil || callee.Object() == nil || !callee.Object().Exported() || len(args) != 4 || args[2].k != pFunc {
+			return nil, false
+		}
+		nCalls++
+		got = args
+		driver = callee
+		outList = h.alloc([]pval{out})
+		return []pval{outList, {k: pNil}}, true
+	}
+	recv := heap.newObj(oi.named)
+	res, h := p.run(apply, []pval{recv, heap.alloc([]pval{A, B})}, 0, heap)
+	if p.aborted || len(res) != 2 || h == nil || nCalls == 0 {
+		return false, "", nil, nil
+	}
+	kernel = got[2].fn
+	switch {
+	case nCalls != 1:
+		return true, fmt.Sprintf("the shared driver is called %d times", nCalls), kernel, driver
+	case got[0].k != pAbs || got[1].k != pAbs || got[0].i != A.i || got[1].i != B.i:
+		return true, "operands are not (inputs[0], inputs[1]) in that order", kernel, driver
+	case got[3].k != pInt || got[3].i != c.constValue(pkgOps, "MultidirectionalBroadcasting"):
+		return true, "broadcast mode is not multidirectional: shapes that ONNX broadcasts both ways are refused or mis-broadcast", kernel, driver
+	case res[1].k != pNil || res[0].k != pList || res[0].i != outList.i:
+		return true, "a success return of Apply is not the result of the shared driver applied to (inputs[0], inputs[1]) with the ONNX kernel", kernel, driver
+	}
+	if l := h.lists[res[0].i]; len(l) != 1 || l[0].k != pAbs || l[0].i != out.i {
+		return true, "the driver's result is changed before it is returned", kernel, driver
+	}
+	if unc := cov.uncovered(c); len(unc) > 0 {
+		c.declined("binary row table of "+oi.name, unc)
+		return false, "", nil, nil
+	}
+	return true, "", kernel, driver
+}
+
+// checkBinaryKernel judges the kernel an operator hands to the shared driver.
+func (c *Ctx) checkBinaryKernel(name string, kernel *ssa.Function) string {
+	bad := ""
+	if kernel == nil {
+		return "the kernel handed to the shared driver is not a known function"
+	}
 	if want, isArith := binaryKernels[name]; isArith {
 		got := c.kernelTerm(kernel)
 		if got != want && !(name == "Div" && c.hasFloatQuotient(kernel) && strings.Contains(got, "P0") && strings.Contains(got, "P1")) {
@@ -409,7 +484,7 @@ func (c *Ctx) checkBinaryCall(name string, apply *ssa.Function, call *ssa.Call) 
 			bad = "operands swapped on the way to the element loop"
 		}
 	}
-	return bad, kernel
+	return bad
 }
 
 // hasFloatQuotient: the function (or a library function it calls, two levels) divides float values with Go's `/`.
@@ -800,7 +875,102 @@ func (c *Ctx) checkBooleanLoop() {
 			ok, why = false, "the element function receives the operands in the wrong order (or the same operand twice)"
 		}
 	}
+	if !ok {
+		// the same clause over tensors with named elements, however the loop is written
+		if known, tbad := c.booleanLoopTable(f); known {
+			ok, why = tbad == "", tbad
+		}
+	}
 	c.decide(ok, "R7", key, c.pos(f.Pos()), "out[coord] = op(A[coord], B[coord]) for the iterator's coordinate", why)
+}
+
+// booleanLoopTable walks the boolean element loop on two tensors of named elements and a stand-in for the element
+// function: the result must have the operands' shape and hold op(a_i, b_i) at every position i.
+func (c *Ctx) booleanLoopTable(f *ssa.Function) (known bool, bad string) {
+	st := c.libInit()
+	if len(st.failed) > 0 {
+		return false, ""
+	}
+	cov := newCover(f)
+	cov.skip = map[*ssa.Function]bool{}
+	var bro []*ssa.Function
+	for _, g := range c.libFns {
+		if fnPkgPath(g) == pkgOps && g.Parent() == nil && g.Object() != nil && g.Object().Exported() && strings.Contains(g.Name(), "roadcast") {
+			bro = append(bro, g)
+		}
+	}
+	for g := range c.reachFrom(bro) {
+		cov.skip[g] = true // the broadcast helpers are R36's subject
+	}
+	for _, shape := range [][]int64{{2, 3}, {3}, {1, 2, 1}} {
+		heap := st.heap.clone()
+		total := int64(1)
+		for _, e := range shape {
+			total *= e
+		}
+		mk := func(prefix string) pval {
+			sl := make([]pval, len(shape))
+			for i, e := range shape {
+				sl[i] = pval{k: pInt, i: e}
+			}
+			cont := make([]pval, total)
+			for k := range cont {
+				cont[k] = pval{k: pStr, s: fmt.Sprintf("%s%d", prefix, k)}
+			}
+			return pval{k: pShaped, i: 900, j: heap.alloc(sl).i, m: heap.alloc(cont).i}
+		}
+		p := &pinterp{c: c, budget: 400000, objects: true, content: true, globals: st.globals, cover: cov, contentType: types.Typ[types.Bool]}
+		panicked := ""
+		p.onPanic = func(fn *ssa.Function, in ssa.Instruction, what string) { panicked = what + " at " + c.pos(in.Pos()) }
+		p.onDyn = func(fn *ssa.Function, call *ssa.Call, args []pval, h *pheap) ([]pval, bool) {
+			if len(args) == 3 && args[0].k == pHookFn && args[1].k == pStr && args[2].k == pStr {
+				return []pval{{k: pStr, s: "op(" + args[1].s + "," + args[2].s + ")"}}, true
+			}
+			return nil, false
+		}
+		res, h := p.run(f, []pval{mk("a"), mk("b"), {k: pHookFn, i: 1}}, 0, heap)
+		desc := "operands of shape " + fmtInts(shape)
+		if panicked != "" {
+			return true, "with " + desc + " the loop panics: " + panicked
+		}
+		if p.aborted || len(res) != 2 || h == nil {
+			return false, ""
+		}
+		if nonNilKind(res[1].k) {
+			return true, "with " + desc + " the loop ends in an error"
+		}
+		if res[1].k != pNil || res[0].k != pShaped || res[0].m == 0 || h.lists[res[0].j] == nil || h.lists[res[0].m] == nil {
+			return false, ""
+		}
+		got := make([]int64, 0, len(shape))
+		for _, e := range h.lists[res[0].j] {
+			if e.k != pInt {
+				return false, ""
+			}
+			got = append(got, e.i)
+		}
+		if fmtInts(got) != fmtInts(shape) {
+			return true, fmt.Sprintf("with %s the result has shape %s", desc, fmtInts(got))
+		}
+		cont := h.lists[res[0].m]
+		if int64(len(cont)) != total {
+			return false, ""
+		}
+		for k, e := range cont {
+			want := fmt.Sprintf("op(a%d,b%d)", k, k)
+			if e.k != pStr {
+				return false, ""
+			}
+			if e.s != want {
+				return true, fmt.Sprintf("with %s element %d of the result is %s, expected %s (elements numbered in row-major order)", desc, k, e.s, want)
+			}
+		}
+	}
+	if unc := cov.uncovered(c); len(unc) > 0 {
+		c.declined("boolean loop table", unc)
+		return false, ""
+	}
+	return true, ""
 }
 
 func funcTypeBoolOp(t types.Type) bool {
@@ -1338,12 +1508,17 @@ func inlineableHelper(f *ssa.Function) bool {
 		return false
 	}
 	p := fnPkgPath(f)
-	return p == pkgOpset13 || p == modPath
+	return p == pkgOpset13 || p == modPath || p == pkgOps
 }
 
 // inlineTerm renders what f returns on success, with f's parameters replaced by the terms of the arguments:
 // one success return gives that term, several give phi(...) of them in a canonical order.
 func (c *Ctx) inlineTerm(f *ssa.Function, args []ssa.Value, depth int) (string, bool) {
+	if c.mutatesParams(f, 0) {
+		// a helper that writes into what it was handed does not stand for what it returns (seed C03-r9: a pass
+		// over the quotients that corrects some of them in place and returns its `out` parameter)
+		return "", false
+	}
 	ei := errResultIndex(f.Signature)
 	var rets []*ssa.Return
 	for _, r := range returnsOf(f) {
@@ -1388,4 +1563,89 @@ func rulePReluKernel(c *Ctx, prop string) {
 	if oi := c.opByName("PRelu"); oi != nil {
 		c.checkPRelu(oi, "R7:unary:PRelu")
 	}
+}
+
+// mutatesParams: the library function (or a function literal in it, or a library function it hands a parameter
+// to) writes storage reachable from one of its parameters - elements, header or fields.
+func (c *Ctx) mutatesParams(f *ssa.Function, depth int) bool {
+	if c.mutParamMemo == nil {
+		c.mutParamMemo = map[*ssa.Function]bool{}
+	}
+	if v, ok := c.mutParamMemo[f]; ok {
+		return v
+	}
+	c.mutParamMemo[f] = false // cycles: assume not, the outer call decides
+	res := false
+	within := map[*ssa.Function]bool{f: true}
+	var addAnon func(g *ssa.Function)
+	addAnon = func(g *ssa.Function) {
+		for _, a := range g.AnonFuncs {
+			within[a] = true
+			addAnon(a)
+		}
+	}
+	addAnon(f)
+	rooted := func(v ssa.Value) bool {
+		for i := 0; i < 12 && v != nil; i++ {
+			v = baseOf(unwrapConv(v))
+			switch x := v.(type) {
+			case *ssa.Parameter:
+				return x.Parent() == f
+			case *ssa.FreeVar:
+				return true
+			case *ssa.Extract:
+				v = x.Tuple
+			case *ssa.TypeAssert:
+				v = x.X
+			case *ssa.MakeInterface:
+				v = x.X
+			case *ssa.ChangeInterface:
+				v = x.X
+			case *ssa.FieldAddr:
+				v = x.X
+			case *ssa.UnOp:
+				v = x.X
+			case *ssa.Phi:
+				for _, e := range x.Edges {
+					if p, ok := unwrapConv(e).(*ssa.Parameter); ok && p.Parent() == f {
+						return true
+					}
+				}
+				return false
+			default:
+				return false
+			}
+		}
+		return false
+	}
+	ef := c.effects()
+	for _, s := range ef.real.sites {
+		if within[s.fn] && s.what != "store-global" && rooted(s.target) {
+			res = true
+			break
+		}
+	}
+	if !res && depth < 3 {
+		for g := range within {
+			for _, b := range g.Blocks {
+				for _, in := range b.Instrs {
+					cl, ok := in.(*ssa.Call)
+					if !ok {
+						continue
+					}
+					sc := cl.Common().StaticCallee()
+					if sc == nil || !isLibFn(sc) || within[sc] {
+						continue
+					}
+					for _, a := range cl.Common().Args {
+						if rooted(a) && c.mutatesParams(sc, depth+1) {
+							res = true
+						}
+					}
+				}
+			}
+		}
+	}
+	c.mutParamMemo[f] = res
+	return res
 }
